@@ -849,7 +849,7 @@ func resolvePlannedField(eCtx *executionContext, parentType *Object, source inte
 		// static map immutable across requests.
 		args = make(map[string]interface{}, len(fp.args.static))
 		for k, v := range fp.args.static {
-			args[k] = v
+			args[k] = copyArgValue(v)
 		}
 	default:
 		args = map[string]interface{}{}
@@ -901,6 +901,27 @@ func resolvePlannedField(eCtx *executionContext, parentType *Object, source inte
 
 	completed := completePlannedValueCatchingError(eCtx, returnType, fp, info, path, result)
 	return completed, true
+}
+
+// copyArgValue copies the lists and input objects of a pre-coerced argument value, so
+// that a resolver mutating what it received cannot change what the next execution of
+// the same plan receives.
+func copyArgValue(v interface{}) interface{} {
+	switch val := v.(type) {
+	case []interface{}:
+		out := make([]interface{}, len(val))
+		for i, item := range val {
+			out[i] = copyArgValue(item)
+		}
+		return out
+	case map[string]interface{}:
+		out := make(map[string]interface{}, len(val))
+		for k, item := range val {
+			out[k] = copyArgValue(item)
+		}
+		return out
+	}
+	return v
 }
 
 func completePlannedValueCatchingError(eCtx *executionContext, returnType Type, fp *fieldPlan, info ResolveInfo, path *ResponsePath, result interface{}) (completed interface{}) {
